@@ -474,7 +474,7 @@ func (g *stmtGen) syntaxStmt(depth int) []model.Stmt {
 		g.pop()
 		return []model.Stmt{model.Insert{Name: name, Block: b}}
 	case 6:
-		cmp := model.Component{Name: "~" + name, Gap: []string{"", " ", "\n  ", "\t"}[r.Intn(4)]}
+		cmp := model.Component{Name: "~" + name, GapFirst: []string{"", " ", "\n  "}[r.Intn(3)], Gap: []string{"", " ", "\n  ", "\t", " {{-- c --}} "}[r.Intn(5)]}
 		if r.Intn(2) == 0 {
 			o := obj()
 			cmp.Args = &o
